@@ -25,6 +25,7 @@ func (runInfo *runInfoStruct) funcExpr() {
 
 		// add Params to newEnv
 		for i, param := range funcExpr.Params {
+			args[i] = ownValue(args[i])
 			runInfo.env.DefineValue(param, args[i])
 		}
 
